@@ -164,7 +164,9 @@ def split_ranges(intsize, step, start, end):
         nextstart = (start + diff if haslower else start) & not_mask
         nextend = (end - diff if hasupper else end) & not_mask
 
-        if shift + step >= intsize or nextstart > nextend:
+        if (shift + step >= intsize or nextstart > nextend
+            or nextstart < start or nextend > end):
+            # The last two conditions catch wrap-around below zero
             yield (start, setbits(end), shift)
             break
 
